@@ -91,6 +91,29 @@ func bmpAddPathMarshallingOption(path *table.Path) *bgp.MarshallingOption {
 	}
 }
 
+// bmpSetPathID sets the path identifier of every NLRI of an UPDATE built from one path.
+func bmpSetPathID(m *bgp.BGPMessage, id uint32) {
+	u := m.Body.(*bgp.BGPUpdate)
+	for i := range u.NLRI {
+		u.NLRI[i].ID = id
+	}
+	for i := range u.WithdrawnRoutes {
+		u.WithdrawnRoutes[i].ID = id
+	}
+	for _, a := range u.PathAttributes {
+		switch v := a.(type) {
+		case *bgp.PathAttributeMpReachNLRI:
+			for i := range v.Value {
+				v.Value[i].ID = id
+			}
+		case *bgp.PathAttributeMpUnreachNLRI:
+			for i := range v.Value {
+				v.Value[i].ID = id
+			}
+		}
+	}
+}
+
 func (b *bmpClient) tryConnect() *net.TCPConn {
 	interval := 1
 	for {
@@ -235,8 +258,15 @@ func (b *bmpClient) loop() {
 								}
 							}
 							for _, path := range pathList {
-								for _, u := range table.CreateUpdateMsgFromPaths([]*table.Path{path}) {
-									payload, _ := u.Serialize()
+								// the peer's routes are reported the way the peer sent them:
+								// with its path identifier when ADD-PATH is received from it.
+								var options []*bgp.MarshallingOption
+								if msg.Neighbor != nil && msg.Neighbor.IsAddPathReceiveEnabled(path.GetFamily()) {
+									options = append(options, bmpAddPathMarshallingOption(path))
+								}
+								for _, u := range table.CreateUpdateMsgFromPaths([]*table.Path{path}, options...) {
+									bmpSetPathID(u, path.RemoteID())
+									payload, _ := u.Serialize(options...)
 									if err := write(bmpPeerRoute(bmp.BMP_PEER_TYPE_GLOBAL, msg.PostPolicy, 0, true, info, path.GetTimestamp().Unix(), payload)); err != nil {
 										return false
 									}
